@@ -177,7 +177,7 @@ void archive_op(World& w, uint8_t sel, uint64_t raw) {
 	const std::vector<uint8_t>& payload = useVol ? w.volMembers[i].payload : w.clmTracks[i].data;
 	switch (what) {
 	case 0: { std::string nm = ar->GetName(i); V_CHECK(nm == (useVol ? w.volMembers[i].name : w.clmTracks[i].name), "GetName mismatch; trace=" << w.trace); break; }
-	case 3: { V_CHECK(ar->GetSize(i) == payload.size(), "GetSize mismatch; trace=" << w.trace); break; }
+	case 3: { V_CHECK(ar->GetSize(i) == (useVol ? size_t(w.volMembers[i].sizeField) : payload.size()), "GetSize mismatch; trace=" << w.trace); break; }
 	case 1: {
 		if (w.nodes.size() >= 14) break;
 		auto s = ar->OpenStream(i);
@@ -191,6 +191,7 @@ void archive_op(World& w, uint8_t sel, uint64_t raw) {
 		break; }
 	case 2: {
 		std::string out = scratch_path("c13_x.bin");
+		if (useVol && w.volMembers[i].comp != refvol::CompUncompressed) { guarded([&] { ar->ExtractFile(i, out); }); break; }   // expansion of that kind may be refused; the object stays usable
 		ar->ExtractFile(i, out);
 		std::vector<uint8_t> got; read_file(out, got);
 		if (useVol) V_CHECK(got == payload, "ExtractFile wrote " << got.size() << " bytes, member has " << payload.size() << "; trace=" << w.trace);
@@ -269,6 +270,9 @@ Decoded decode(Tape& t) {
 		for (unsigned i = 0; i < k; ++i) {
 			refvol::Member m; m.name = std::string(1, char('a' + i)) + "f.bin";
 			m.payload = t.expand(t.pick<uint32_t>({0, 1, 3, 4, 9, 30, 64})); m.sizeField = uint32_t(m.payload.size());
+			// one member in four is stored in a kind the library lists and streams but cannot expand; its index size (the expanded size) differs
+			// from the stored length: the member stream is the STORED bytes, exactly
+			if (t.below(4) == 0) { m.comp = t.flag() ? 0x101 : 0x102; m.sizeField = uint32_t(m.payload.size() + 1 + t.below(90)); if (t.below(3) == 0 && m.payload.size() > 2) m.sizeField = uint32_t(m.payload.size() - 2); }
 			d.vm.push_back(m);
 		}
 	}
